@@ -32,6 +32,7 @@ ASSUMPTIONS = [
     'extra (per-job) external storage is billed to the job on top of the worker and is excluded from the packing sum (storage 0), but included in the round-trip probes',
 ]
 TRUSTED_BASE = ['fake ProductVersions table in which every product has version 1 (vf/gen_batch_pure.py)', 'json round trip = what the driver stores (base64 of json)']
+FORBIDDEN_STUBS = ('aiomysql', 'pymysql', 'google', 'azure', 'kubernetes_asyncio', 'googlecloudprofiler')  # imported only, never called
 SHARDS = {'quick': 2, 'thorough': 8}
 FLOORS = {'configs': 400, 'packings_checked': 20000, 'roundtrip_probes': 5000, 'whole_worker_checks': 400, 'machine_types_gcp': 55, 'machine_types_azure': 35,
           'resource_types': 14}
@@ -278,5 +279,17 @@ def run(ctx):
                 break
 
 BREAKS = """
-(filled in after validation)
+Breaks applied one at a time in a scratch worktree (VERIF_REPO=/tmp/scratch-bp ./check C13, quick tier):
+  DESIGN  round-up instead of `//` in worker_fraction_in_1024ths          NOT CAUGHT - equivalent on the whole quantifier: pool
+          workers have 2^j <= 256 cores (asserted) and jobs 250*2^k mcpu, so 1024*cpu/(cores*1000) = 2^(8+k-j) is an integer;
+          job-private jobs take cores*1000 -> exactly 1024.
+  DESIGN  drop 'job_private' from GCPSlimInstanceConfig.to_dict            caught: roundtrip/raises
+  DESIGN  drop 'storage_in_gib' from GCPStaticSizedDiskResource.to_dict    caught: roundtrip/raises
+  own, subtle  GCPAcceleratorResource.from_dict returns number=1 for format 2 (only multi-GPU machine types: g2-standard-24/48/96,
+          a2-*)                                                           caught: roundtrip/billing-differs-accelerator, roundtrip/dict-not-stable
+  own     IPFeeResourceMixin bills 1024 to every job                       caught: packing/over-billed-ip-fee, packing/over-billed-az-ip-fee
+  own, subtle  AzureDynamicSizedDiskResource.to_dict loses the disk-name table (only probes with extra storage on azure)
+                                                                          caught: roundtrip/reloaded-config-raises
+  own     n1 highcpu 921 MiB per core (full-size job memory != machine)    caught: billing/raises (the code's own MiB assertion)
+  own     static disk billed at least 10 GiB per job                       caught: packing/over-billed-disk, packing/over-billed-az-disk
 """
